@@ -585,7 +585,7 @@ func (e *FE) summarise(f *ssa.Function) (mustOK, mustRet Facts) {
 			mustOK = mustOK.intersect(at)
 			continue
 		}
-		sv := ret.Results[si]
+		sv := resolveLocal(ret.Results[si])
 		if sc := statusCall(sv); sc != nil && at.Has("@fail:"+instKey(sc)) {
 			continue // this return is only reached after the call was seen to fail
 		}
